@@ -22,7 +22,7 @@ from .c02 import run_cli
 LEVEL = "fault_enumeration"
 
 RULE = ("enumerated: server behaviour {200 JSON, 200 JSON padded with whitespace, 200 chunked JSON, 201 JSON, 200 JSON with BOM, 200 garbage, 200 "
-        "empty, 200 truncated JSON, 200 JSON followed by garbage / HTML / a second JSON value, complete JSON in an incomplete HTTP message "
+        "empty, 3xx without Location / unassigned 3xx / 199 with a JSON body, 200 truncated JSON, 200 JSON followed by garbage / HTML / a second JSON value, complete JSON in an incomplete HTTP message "
         "(short of Content-Length, chunked without terminator), 204 empty, 301 without Location, 400 / 401 / 404 with JSON and text bodies, 500, 503 with JSON body, "
         "connection refused, closed before headers, closed mid-body} x output {stdout, new file, existing file, existing file longer than the reply}; for each cell the "
         "flags {--is-one-of, --specify-by-url} (4 combinations), header sets (odd spacing, colons / tabs / commas / quotes in values, empty values, 3 "
@@ -31,14 +31,16 @@ RULE = ("enumerated: server behaviour {200 JSON, 200 JSON padded with whitespace
         "the random schema generator. Non-trivial = every cell; distinct by (behaviour, output mode, flags, headers, auth)")
 
 GQL_DIR = os.path.join(build.REPO, "graphql_client_cli", "src", "graphql")
-FLOOR = {"invocations": 60, "requests-checked": 40, "success-cells": 12, "failure-cells": 30, "existing-file-preserved": 10, "refused-headers": 4, "code-equivalence": 3}
+FLOOR = {"invocations": 60, "requests-checked": 40, "success-cells": 12, "failure-cells": 30, "existing-file-preserved": 10, "refused-headers": 8, "code-equivalence": 3}
 
 HEADER_SETS = [[], ["X-Name: Value"], ["X-A:1", " X-B : v:1 "], ["X-Tab:\tT ", "X-Empty:", "Accept-Language: fr, en;q=0.5"], ["x-lower: é-latin"],
                # the same header name twice (and once more in another case): every --header must reach the server
                ["X-Feature: alpha", "X-Feature: beta", "x-feature: gamma", "X-Other: 1"],
                # commas, semicolons, equals signs and quotes belong to the value
                ["X-List: a,b,c", "Cookie: a=1; b=\"2,3\"", "X-Comma: ,x,"]]
-BAD_HEADERS = ["X-Name Value", ": Value", "X Name: Value", "X\tName: Value", ":", "   : v"]
+BAD_HEADERS = ["X-Name Value", ": Value", "X Name: Value", "X\tName: Value", ":", "   : v",
+               # no colon at all, although what is there would make a fine header name
+               "X-Api-Key", "Authorization", " XName ", "X-Name=Value"]
 
 
 def expected_header(h):
@@ -75,6 +77,12 @@ def behaviours(server_json):
         ("chunked-without-terminator", dict(behaviour="chunked-no-terminator", body=good, status=200), "failure"),
         ("204-empty", dict(behaviour="ok", body=b"", status=204), "failure"),
         ("301-no-location", dict(behaviour="ok", body=b"moved", status=301, content_type="text/plain"), "failure"),
+        # 3xx replies that the client cannot follow (no Location) or that are not redirects at all, with a well-formed JSON body
+        ("300-json", dict(behaviour="ok", body=good, status=300), "failure"),
+        ("302-no-location-json", dict(behaviour="ok", body=good, status=302), "failure"),
+        ("307-no-location-json", dict(behaviour="ok", body=good, status=307), "failure"),
+        ("399-json", dict(behaviour="ok", body=good, status=399), "failure"),
+        ("100-range-199-json", dict(behaviour="ok", body=good, status=199), "failure"),
         ("400-json", dict(behaviour="ok", body=b'{"errors":[{"message":"bad"}]}', status=400), "failure"),
         ("401-text", dict(behaviour="ok", body=b"unauthorized", status=401, content_type="text/plain"), "failure"),
         ("404-json", dict(behaviour="ok", body=b'{"message":"nope"}', status=404), "failure"),
